@@ -81,8 +81,10 @@ package postprocessor
 //@   property C06
 //@   requires item != nil && item.url != nil
 //@   modifies models.URL::*, elem::*models.URL, models.Item::base, elem::string
-//@   loop for invariant [outs] outsSep(assets, outlinks)
-//@   loop range invariant [outs] outsSep(assets, outlinks)
+//@   loop for invariant [outs] outsSep(assets, outlinks) && item.url.Hops == old(item.url.Hops)
+//@   loop range invariant [outs] outsSep(assets, outlinks) && item.url.Hops == old(item.url.Hops)
+//@   loop range#2 invariant [page-hops] item.url.Hops == old(item.url.Hops)
+//@   ensures [page-hops-kept] item.url.Hops == old(item.url.Hops) // the page's own hop count is not changed by extracting its assets
 //@   loop for invariant [filtered] 0 <= i && i <= len(assets) && forall(j, 0, i, assets[j] != nil) && item.url == old(item.url) && item.url != nil
 //@   loop range invariant [asset-hops] -1 <= rangeindex && rangeindex < len(assets) && forall(j, 0, len(assets), assets[j] != nil) && forall(j, 0, rangeindex+1, assets[j].Hops == item.url.Hops) && item.url == old(item.url) && item.url != nil
 //@   loop range#2 invariant [keep] item.url == old(item.url) && item.url != nil && (len(outlinks) == 0 ==> forall(j, 0, len(assets), assets[j] != nil && assets[j].Hops == item.url.Hops))
@@ -135,6 +137,7 @@ package postprocessor
 //@   loop range#2 invariant [hops-in] item.url.Hops == h0 && forall(j, 0, len(newOutlinks), newOutlinks[j] != item.url && (newOutlinks[j] != nil ==> newOutlinks[j].Hops == h0 + 1 || (domainscrawl.dcOn() && newOutlinks[j].Hops == 0)))
 //@   loop range#2 invariant [hops-out] forall(k, 0, len(outlinks), outlinks[k] != nil ==> outlinks[k].url != nil && outlinks[k].url != item.url && (outlinks[k].url.Hops == h0 + 1 || (domainscrawl.dcOn() && outlinks[k].url.Hops == 0)))
 //@   ensures [via] @C15 forall(j, 0, len(result), result[j] != nil ==> result[j].seedVia == models.urlKey(item.url)) // C15: every outlink the pipeline discovers is handed to the queue with ... its parent page as 'via'
+//@   ensures [hops-gate] old(!domainscrawl.dcOn() && item.url.Hops >= config.config.MaxHops) ==> len(result) == 0 // C06: outlinks that do not match --domains-crawl are queued only from pages with fewer than --max-hops hops
 //@   ensures [outlink-hops] forall(k, 0, len(result), result[k] != nil ==> result[k].url != nil && (result[k].url.Hops == item.url.Hops + 1 || (domainscrawl.dcOn() && result[k].url.Hops == 0))) // C06: outlinks ... carry the parent's hops + 1, outlinks that match it (--domains-crawl) are queued with hops 0
 //@   ensures [body-closed] @C16 item.url.body == nil // C16: no response body ... remains open (postprocessItem defers closeBody: every exit path, including the early ones, closes the node's body)
 //@   ensures [not-archived] old(item.status) != models.ItemArchived ==> item.status == old(item.status) && len(item.children) == old(len(item.children)) && len(result) == 0
